@@ -7,7 +7,7 @@ Regenerated from the source text on every run (fail-closed):
   * the branch tests of WebSocketWriter.send_frame (refusal while closing, plain / sync / shielded path) with
     WS_CONTROL_FRAME_OPCODE and WEBSOCKET_MAX_SYNC_CHUNK_SIZE;
   * RSV1 value and flush-mode choice of the two compressed paths, removal of WS_DEFLATE_TRAILING;
-  * `_get_compressor`: a truthy per-message `compress` builds a NEW compressor (wbits = -compress), else the
+  * `_get_compressor`: a truthy per-message `compress` drops the shared compressor and builds a NEW one (wbits = -compress), else the
     shared one (wbits = -self.compress) is created once;
   * `_websocket_mask_python`: index i is xor-ed with mask[i % 4] (shape of the four strided translate calls and
     of the xor table);
@@ -228,6 +228,7 @@ def _compressed_path(fn, call_text: str):
 _EXPECTED_GET_COMPRESSOR = '''
 def _get_compressor(self, compress):
     if compress:
+        self._compressobj = None
         return ZLibCompressor(level=ZLibBackend.Z_BEST_SPEED, wbits=-compress, max_sync_chunk_size=WEBSOCKET_MAX_SYNC_CHUNK_SIZE)
     if not self._compressobj:
         self._compressobj = ZLibCompressor(level=ZLibBackend.Z_BEST_SPEED, wbits=-self.compress, max_sync_chunk_size=WEBSOCKET_MAX_SYNC_CHUNK_SIZE)
@@ -391,8 +392,9 @@ def _tail() -> str:
     tr = core.literal(v.args[0])
     out.append(f"Definition DEFLATE_TRAILING : list N := {core.coq_N_list(tr)}.")
     _check_fn(WRITER, "_get_compressor", _EXPECTED_GET_COMPRESSOR, cls="WebSocketWriter")
-    out.append("(* _get_compressor shape checked: truthy per-message `compress` -> NEW ZLibCompressor(wbits=-compress); "
-               "else the shared one, created once with wbits=-self.compress *)")
+    out.append("(* _get_compressor shape checked: truthy per-message `compress` -> the shared compressor is dropped "
+               "(`self._compressobj = None`) and a NEW ZLibCompressor(wbits=-compress) is used; else the shared one, created "
+               "on demand with wbits=-self.compress *)")
     out.append("Definition override_uses_fresh_compressor : bool := true.")
     _check_fn(HELPERS, "_websocket_mask_python", _EXPECTED_MASK)
     _check_fn(HELPERS, "_xor_table", _EXPECTED_XOR)
